@@ -40,6 +40,24 @@ CHECKS.update({
                    "§5 C08"),
 })
 
+CHECKS.update({
+    "C07": dict(
+        technique="Coq proof (Less is a strict order, total without full ties, decided by the five documented keys; sorted output unique and independent of push order) + differential correspondence on Less pairs and on populations (order query + serving ClusterCIDR) + documented-order monitor",
+        text="Theorems (Properties/C07.v) about the model of PriorityQueue.Less and of the pop order; tied to the code by comparing Less on 6,000 pairs with ties at each level, and orderedMatchingClusterCIDRs / the serving ClusterCIDR on 150 populations of 2-8 ClusterCIDRs in random creation order.",
+        note="Trusted: container/heap pops in sorted order for a strict weak order (library contract, exercised); Coq kernel, extraction, drivers; agreement sampled per run. The relative order of ClusterCIDRs WITHOUT selector (all come last) is creation order in code and model; the property does not fix it.",
+        ref="§5 C07"),
+    "C17": dict(
+        technique="Coq proof (considered iff every requirement holds; same key => same meaning, under the named round-trip hypothesis RT; semantics of the six operators; unrepresentable selector rejected) + differential validation of RT: real print/parse path vs the model applied to the selector's own requirements",
+        text="Theorems (Properties/C17.v); the hypothesis RT about apimachinery's Selector.String/labels.Parse is exercised on ~15,000 (selector, label set) pairs per run including keys 'in'/'notin', numeric comparisons, repeated keys.",
+        note="PARTIAL: the print/parse round trip of k8s.io/apimachinery/pkg/labels is a named hypothesis (stage 2 of DESIGN C17 not done), validated by differential testing only. Trusted also: Coq kernel, extraction, drivers.",
+        ref="§5 C17"),
+    "C18": dict(
+        technique="Coq proof (validate_spec = 0 errors iff documented acceptance condition, for every library oracle answer; update validation = 0 iff specs equal) + exhaustive-grid correspondence on error counts",
+        text="Theorems (Properties/C18.v) over a transliteration of validation.go returning the number of field errors; the real ValidateClusterCIDRSpec/ValidateClusterCIDRUpdate are run on the grid (every prefix length x hostBits -2..130, wrong family, malformed, 21 selector shapes, update pairs differing in every subset of fields) and the counts compared.",
+        note="Trusted: library answers (ParseCIDRSloppy, ValidateLabelName, NameIsDNSSubdomain, Semantic.DeepEqual) enter the model as inputs computed by the real libraries; Coq kernel, extraction, drivers.",
+        ref="§5 C18"),
+})
+
 NOT_APPLICABLE = []
 
 def main():
